@@ -75,6 +75,12 @@ type Interp struct {
 	pathShared map[string]int
 	pathSync   map[string]int // writes made through goroutine-safe containers or under a held lock
 	lockDepth  int
+	// vPar bookkeeping: objects allocated on this path before the two calls
+	// and written (unsynchronised) by each of them
+	allocSeq    int32
+	parBoundary int32
+	parBranch   int
+	parWrites   [2]map[interface{}]string
 	syncMaps  map[*Cell]*MapObj
 }
 
@@ -551,7 +557,8 @@ func (in *Interp) exec(fr *frame, ins ssa.Instruction) {
 		in.set(fr, x, fv)
 	case *ssa.MakeMap:
 		mt := under(x.Type()).(*types.Map)
-		in.set(fr, x, MapV{m: &MapObj{born: in.epoch, kt: mt.Key(), vt: mt.Elem()}})
+		in.allocSeq++
+		in.set(fr, x, MapV{m: &MapObj{born: in.epoch, seq: in.allocSeq, kt: mt.Key(), vt: mt.Elem()}})
 	case *ssa.MapUpdate:
 		in.mapUpdate(in.get(fr, x.Map), in.get(fr, x.Key), in.get(fr, x.Value))
 	case *ssa.Lookup:
@@ -1471,6 +1478,9 @@ func (in *Interp) mapUpdate(mv Value, k, v Value) {
 }
 
 func (in *Interp) setEntries(m *MapObj, ne []mapEntry) {
+	if in.parBranch > 0 && m.born == in.epoch && m.seq <= in.parBoundary && m.kt != nil && in.lockDepth == 0 {
+		in.parWrites[in.parBranch-1][m] = "map[" + typeString(m.kt) + "]" + typeString(m.vt)
+	}
 	if m.born < in.epoch {
 		in.undo = append(in.undo, undoRec{m: m, ent: m.entries})
 		if m.born == 0 && in.epoch > 0 {
@@ -1593,11 +1603,16 @@ func (in *Interp) nextOp(v Value, x *ssa.Next) Value {
 			return TupleV{False, I64(0), BVConst(32, 0)}
 		}
 		b := s.b[it.pos]
-		if !in.ex.Branch(Ult(b, BVConst(8, 0x80))) {
-			in.unsupported("range over string with non-ASCII byte")
+		if in.ex.Branch(Ult(b, BVConst(8, 0x80))) {
+			r := TupleV{True, I64(int64(it.pos)), Zext(b, 32)}
+			it.pos++
+			return r
 		}
-		r := TupleV{True, I64(int64(it.pos)), Zext(b, 32)}
-		it.pos++
+		// UTF-8 decoding as the language defines it for range: an invalid
+		// or truncated sequence yields U+FFFD and advances one byte
+		rn, w := in.decodeRune(s.b[it.pos:])
+		r := TupleV{True, I64(int64(it.pos)), rn}
+		it.pos += w
 		return r
 	}
 	tt := x.Type().(*types.Tuple)
@@ -1607,6 +1622,49 @@ func (in *Interp) nextOp(v Value, x *ssa.Next) Value {
 	e := it.entries[it.pos]
 	it.pos++
 	return TupleV{True, e.k, e.v}
+}
+
+// decodeRune decodes the UTF-8 sequence at the start of b (first byte known
+// to be >= 0x80), branching on the byte classes.
+func (in *Interp) decodeRune(b []*Term) (*Term, int) {
+	bad := BVConst(32, 0xFFFD)
+	inR := func(t *Term, lo, hi uint64) bool {
+		return in.ex.Branch(And(Ule(BVConst(8, lo), t), Ule(t, BVConst(8, hi))))
+	}
+	low6 := func(t *Term) *Term { return Zext(BAnd(t, BVConst(8, 0x3F)), 32) }
+	b0 := b[0]
+	switch {
+	case inR(b0, 0xC2, 0xDF):
+		if len(b) < 2 || !inR(b[1], 0x80, 0xBF) {
+			return bad, 1
+		}
+		return BOr(Shl(Zext(BAnd(b0, BVConst(8, 0x1F)), 32), BVConst(32, 6)), low6(b[1])), 2
+	case inR(b0, 0xE0, 0xEF):
+		lo, hi := uint64(0x80), uint64(0xBF)
+		if in.ex.Branch(Eq(b0, BVConst(8, 0xE0))) {
+			lo = 0xA0
+		} else if in.ex.Branch(Eq(b0, BVConst(8, 0xED))) {
+			hi = 0x9F
+		}
+		if len(b) < 3 || !inR(b[1], lo, hi) || !inR(b[2], 0x80, 0xBF) {
+			return bad, 1
+		}
+		r := BOr(Shl(Zext(BAnd(b0, BVConst(8, 0x0F)), 32), BVConst(32, 12)), BOr(Shl(low6(b[1]), BVConst(32, 6)), low6(b[2])))
+		return r, 3
+	case inR(b0, 0xF0, 0xF4):
+		lo, hi := uint64(0x80), uint64(0xBF)
+		if in.ex.Branch(Eq(b0, BVConst(8, 0xF0))) {
+			lo = 0x90
+		} else if in.ex.Branch(Eq(b0, BVConst(8, 0xF4))) {
+			hi = 0x8F
+		}
+		if len(b) < 4 || !inR(b[1], lo, hi) || !inR(b[2], 0x80, 0xBF) || !inR(b[3], 0x80, 0xBF) {
+			return bad, 1
+		}
+		r := BOr(Shl(Zext(BAnd(b0, BVConst(8, 0x07)), 32), BVConst(32, 18)), BOr(Shl(low6(b[1]), BVConst(32, 12)), BOr(Shl(low6(b[2]), BVConst(32, 6)), low6(b[3]))))
+		return r, 4
+	}
+	return bad, 1
 }
 
 // ---------------------------------------------------------------- call instruction
